@@ -68,10 +68,13 @@ func (s SliceV) IsNil() bool { return s.B == nil }
 // boxArr: boxed values (strings, pointers, structs, interfaces, ...).
 type boxArr struct{ a []Value }
 
-func (b *boxArr) Cap() int                     { return len(b.a) }
-func (b *boxArr) Load(c *Ctx, i int) Value     { return copyVal(b.a[i]) }
-func (b *boxArr) Store(c *Ctx, i int, v Value) { storeInto(&b.a[i], v) }
-func (b *boxArr) Addr(i int) Value             { return &b.a[i] }
+func (b *boxArr) Cap() int                 { return len(b.a) }
+func (b *boxArr) Load(c *Ctx, i int) Value { return copyVal(b.a[i]) }
+func (b *boxArr) Store(c *Ctx, i int, v Value) {
+	c.noteSlotWrite(&b.a[i])
+	storeInto(&b.a[i], v)
+}
+func (b *boxArr) Addr(i int) Value { return &b.a[i] }
 
 // idArr: scalar elements kept as term ids in a native []int64, so that the
 // very same memory can back a shadow tensor (gorgonia's WithBacking aliases).
@@ -92,6 +95,9 @@ func (b *idArr) Store(c *Ctx, i int, v Value) {
 		panic(c.abort("idArr store: sort %v into array of %v", t.Sort, b.sort))
 	}
 	c.noteWrite(b.ids, i)
+	if name, ok := c.watchArrs[b]; ok {
+		c.writes = append(c.writes, fmt.Sprintf("%s: element store @ %s", name, c.where()))
+	}
 	b.ids[i] = t.ID
 }
 func (b *idArr) Addr(i int) Value { return ElemRef{B: b, I: i} }
